@@ -16,7 +16,7 @@ ROOT = os.path.dirname(os.path.abspath(__file__))
 MOD = "github.com/evstack/ev-node"
 
 def main():
-    out = sys.argv[1]
+    out = os.path.abspath(sys.argv[1])
     shims = []
     args = sys.argv[2:]
     while args:
@@ -56,25 +56,40 @@ def main():
         json.dump({"Replace": rep}, fh, indent=1)
 
 def sendgate(s):
-    """Insert m.verifSendGate(<channel>) before every send into the sync loop's input channels: a plain send statement,
-    or a send that is a case of a select (then the gate goes before the select)."""
+    """Wrap every send into the sync loop's input channels: `if !m.verifDivertHeader(ev) { <original send> }`.
+    Handles a plain send statement and a send that is a case of a select (then the whole select is wrapped)."""
     lines = s.split("\n")
     out = []
-    for ln in lines:
-        m = re.match(r'^(\s*)(m\.(headerInCh|dataInCh) <- )', ln)
+    i = 0
+    fn = {"headerInCh": "verifDivertHeader", "dataInCh": "verifDivertData"}
+    while i < len(lines):
+        ln = lines[i]
+        m = re.match(r'^(\s*)m\.(headerInCh|dataInCh) <- (.*)$', ln)
         if m:
-            out.append('%sm.verifSendGate("%s")' % (m.group(1), m.group(3)))
+            out.append('%sif !m.%s(%s) {' % (m.group(1), fn[m.group(2)], m.group(3)))
             out.append(ln)
+            out.append('%s}' % m.group(1))
+            i += 1
             continue
-        m = re.match(r'^(\s*)case m\.(headerInCh|dataInCh) <- ', ln)
-        if m:
-            # walk back to the enclosing select
-            for j in range(len(out) - 1, -1, -1):
-                ms = re.match(r'^(\s*)select \{\s*$', out[j])
-                if ms:
-                    out.insert(j, '%sm.verifSendGate("%s")' % (ms.group(1), m.group(2)))
-                    break
+        ms = re.match(r'^(\s*)select \{\s*$', ln)
+        if ms:
+            ind = ms.group(1)
+            # find the end of this select and whether it has a send case into one of the channels
+            k = i + 1
+            expr = None
+            while k < len(lines) and lines[k] != ind + "}":
+                mc = re.match(r'^\s*case m\.(headerInCh|dataInCh) <- (.*):\s*$', lines[k])
+                if mc:
+                    expr = (mc.group(1), mc.group(2))
+                k += 1
+            if expr and k < len(lines):
+                out.append('%sif !m.%s(%s) {' % (ind, fn[expr[0]], expr[1]))
+                out.extend(lines[i:k + 1])
+                out.append('%s}' % ind)
+                i = k + 1
+                continue
         out.append(ln)
+        i += 1
     return "\n".join(out)
 
 def rewrite(s, what):
